@@ -393,6 +393,32 @@ def op_table():
         if observable(P) != before:
             raise PropertyViolation("C12: mutating a collection after passing it to a constructor changed the object built from it")
 
+    @reg("render_text", 3, "text")
+    def _(P, u, rf, sk):
+        """C16: basic_render against the text built from the public API (one line per member ...)"""
+        uni = P.U[u % len(P.U)]
+        names = {id(v): "n%d" % k for k, v in enumerate(P.V + P.U)}
+        rfunc = [None, lambda v: names.get(id(v), "?"), lambda v: names.get(id(v), "?") + " ,"][rf % 3]
+        sort = [None, lambda v: names.get(id(v), "?")][sk % 2]
+        nb = P.mods["helpers"].neighbors
+        members = uni.vertices
+        try:
+            order = sorted(members, key=sort) if sort else members
+            rr = rfunc if rfunc else repr
+            lines = []
+            for v in order:
+                ns = nb(v)
+                ns = sorted(ns, key=sort) if sort else ns
+                if any(w is None for w in ns):
+                    return
+                lines.append(str(rr(v)) + " -> " + ", ".join(str(rr(w)) for w in ns))
+            want = "\n".join(lines) if members else None
+        except (NotImplementedError, IndexError, AttributeError):
+            return
+        got = P.mods["plaintext"].basic_render(uni, rfunc=rfunc, sort=sort)
+        if got != want:
+            raise PropertyViolation(f"C16: basic_render returned {got!r}, expected {want!r}")
+
     @reg("render", 4, "render")
     def _(P, kind, u, fault_at, sortk):
         """a read-only output operation, with a user callback that raises at its `fault_at`-th invocation (0 = never):
@@ -612,6 +638,7 @@ GROUPS = {
     "C04": ("assoc", "explicit", "query"), "C09": ("assoc", "explicit", "query"),
     "C05": ("assoc", "explicit", "cache", "query"), "C12": ("assoc", "member", "laws", "cache", "query", "snapshot"),
     "C13": ("assoc", "explicit", "member", "render", "query"),
+    "C16": ("assoc", "explicit", "member", "text"),
     "C06": ("assoc", "explicit", "member", "traverse"), "C07": ("assoc", "explicit", "member", "traverse"),
     "C08": ("assoc", "explicit", "member", "traverse"),
 }
